@@ -37,7 +37,7 @@ def thresholds(tier):
 
 def knobs(rng):
   return {"depth": rng.choice([0, 0, 1]), "max_children": 1, "p_struct": 0.3, "p_list": 0.2, "p_ff": 0.3, "max_sigs": rng.choice([3, 5]),
-          "expr_depth": rng.choice([2, 3, 4]), "widths": [1, 2, 3, 4, 5, 7, 8, 9, 16, 31, 32, 33, 63, 64], "avoid_const_ops": True, "p_freevar": 0.25, "p_tmp": 0.3, "p_tmp_chain": 0.3, "p_vsl": rng.choice([0, 0.2]), "p_lambda": 0.2, "p_nested_field": 0.2, "p_list_field": 0.2, "p_for": 0.6, "p_list": 0.4, "p_ite_const": 0.4}
+          "expr_depth": rng.choice([2, 3, 4]), "widths": [1, 2, 3, 4, 5, 7, 8, 9, 16, 31, 32, 33, 63, 64], "avoid_const_ops": True, "p_freevar": 0.25, "p_tmp": 0.3, "p_tmp_chain": 0.3, "p_vsl": rng.choice([0, 0.2]), "p_lambda": 0.2, "p_nested_field": 0.2, "p_list_field": 0.2, "p_for": 0.6, "p_for_mixed": 0.5, "p_tmp_loopname": 0.8, "p_list": 0.4, "p_ite_const": 0.4}
 
 
 # ---------------------------------------------------------------------------
